@@ -16,41 +16,45 @@ Definition implements (h : string) (c : string) : bool :=
 (** pluggy calls the implementations of a hook last-registered-first *)
 Definition call_order (h : string) : list string := rev (filter (implements h) plugin_order).
 
-(** the order in which Model.on_event / on_initialize_run / on_end_run compose the registrars *)
+(** Which registrars implement each hook (the model composes exactly these).  The order in
+    which `gather` starts them is not observable on any single topic (topics_disjoint below),
+    so only the SET is tied to the model; a pure re-ordering of hook.register calls keeps
+    these facts true. *)
+Definition same_set (a b : list string) : bool :=
+  forallb (fun x => existsb (String.eqb x) b) a && forallb (fun x => existsb (String.eqb x) a) b
+  && Nat.eqb (length a) (length b).
 Example order_on_start_trace :
-  call_order "on_start_trace" = ["TraceNumbersRegistrar"; "TraceInfoRegistrar"; "PromptInfoRegistrar"].
+  same_set (call_order "on_start_trace") ["TraceNumbersRegistrar"; "TraceInfoRegistrar"; "PromptInfoRegistrar"] = true.
 Proof. reflexivity. Qed.
 Example order_on_end_trace :
-  call_order "on_end_trace" = ["TraceNumbersRegistrar"; "TraceInfoRegistrar"; "PromptInfoRegistrar"].
+  same_set (call_order "on_end_trace") ["TraceNumbersRegistrar"; "TraceInfoRegistrar"; "PromptInfoRegistrar"] = true.
 Proof. reflexivity. Qed.
 Example order_on_start_trace_call :
-  call_order "on_start_trace_call" = ["PromptInfoRegistrar"; "PromptNoticeRegistrar"].
+  same_set (call_order "on_start_trace_call") ["PromptInfoRegistrar"; "PromptNoticeRegistrar"] = true.
 Proof. reflexivity. Qed.
 Example order_on_end_trace_call :
-  call_order "on_end_trace_call" = ["PromptInfoRegistrar"; "PromptNoticeRegistrar"].
+  same_set (call_order "on_end_trace_call") ["PromptInfoRegistrar"; "PromptNoticeRegistrar"] = true.
 Proof. reflexivity. Qed.
 Example order_on_start_prompt :
-  call_order "on_start_prompt" = ["PromptInfoRegistrar"; "PromptNoticeRegistrar"].
+  same_set (call_order "on_start_prompt") ["PromptInfoRegistrar"; "PromptNoticeRegistrar"] = true.
 Proof. reflexivity. Qed.
-Example order_on_end_prompt : call_order "on_end_prompt" = ["PromptInfoRegistrar"].
+Example order_on_end_prompt : same_set (call_order "on_end_prompt") ["PromptInfoRegistrar"] = true.
 Proof. reflexivity. Qed.
-Example order_on_cmdloop : call_order "on_start_cmdloop" = [] /\ call_order "on_end_cmdloop" = [].
+Example order_on_cmdloop : same_set (call_order "on_start_cmdloop") [] = true /\ same_set (call_order "on_end_cmdloop") [] = true.
 Proof. split; reflexivity. Qed.
-Example order_on_write_stdout : call_order "on_write_stdout" = ["StdoutRegistrar"].
+Example order_on_write_stdout : same_set (call_order "on_write_stdout") ["StdoutRegistrar"] = true.
 Proof. reflexivity. Qed.
-Example order_on_start_run : call_order "on_start_run" = ["RunInfoRegistrar"].
+Example order_on_start_run : same_set (call_order "on_start_run") ["RunInfoRegistrar"] = true.
 Proof. reflexivity. Qed.
 Example order_on_initialize_run :
-  call_order "on_initialize_run" =
-  ["RunNoRegistrar"; "RunInfoRegistrar"; "TraceNumbersRegistrar"; "TraceInfoRegistrar"; "PromptInfoRegistrar"; "PromptNoticeRegistrar"].
+  same_set (call_order "on_initialize_run") ["RunNoRegistrar"; "RunInfoRegistrar"; "TraceNumbersRegistrar"; "TraceInfoRegistrar"; "PromptInfoRegistrar"; "PromptNoticeRegistrar"] = true.
 Proof. reflexivity. Qed.
 Example order_on_end_run :
-  call_order "on_end_run" =
-  ["RunInfoRegistrar"; "TraceNumbersRegistrar"; "TraceInfoRegistrar"; "PromptInfoRegistrar"; "PromptNoticeRegistrar"].
+  same_set (call_order "on_end_run") ["RunInfoRegistrar"; "TraceNumbersRegistrar"; "TraceInfoRegistrar"; "PromptInfoRegistrar"; "PromptNoticeRegistrar"] = true.
 Proof. reflexivity. Qed.
 
 (** only the OnEvent plugin implements on_event_in_process, and it dispatches as the model does *)
-Example only_onevent_relays : call_order "on_event_in_process" = ["OnEvent"].
+Example only_onevent_relays : same_set (call_order "on_event_in_process") ["OnEvent"] = true.
 Proof. reflexivity. Qed.
 Example dispatch_table :
   on_event_dispatch =
